@@ -4,13 +4,16 @@
    table of the current source (Gen/GenAcronyms.v).
    ci_window ot it: the tokens `it` contain a contiguous window equal to `ot` up to ASCII case.
    no_occ sw l: the words sw do not occur as a contiguous window of l.
-   The locality theorems are stated for the single-separator family (snake, kebab, dot) with neutral words;
-   the doubled-separator clause of the property is FALSE of the function (C07_doubled_separator_refuted,
-   recorded finding doubled_separator_collapsed); the remaining styles are decided by the direct oracle. *)
+   The locality theorems are stated for snake, kebab, dot, SCREAMING_SNAKE, SCREAMING-TRAIN and PascalCase
+   identifiers of neutral words; the doubled-separator clause of the property is FALSE of the function
+   (C07_doubled_separator_refuted, recorded finding doubled_separator_collapsed); camelCase and Train-Case
+   identifiers are decided by the direct oracle.  In PascalCase the words OUTSIDE the span are preserved for every
+   replacement; how the replacement is cased INSIDE the span depends on how it was typed (all-caps styles leak
+   their capitals: C07_pascal_caps_inside_span) - that is not a locality failure. *)
 From Coq Require Import String.
 From RN Require Import Base.Bytes Base.Str Model.StyleDef Model.CaseModel Model.CaseSpec Model.Compound.
 From RN Require Import Gen.GenAcronyms Gen.GenStyles.
-From RN Require Import Proofs.CompoundP1 Proofs.CompoundP.
+From RN Require Import Proofs.CaseP2 Proofs.CompoundP1 Proofs.CompoundP Proofs.CompoundP2.
 
 (* soundness: whatever is returned, the identifier's tokens hold the term's tokens as a whole-word window *)
 Theorem C07_soundness : forall ident search repl styles,
@@ -78,6 +81,56 @@ Theorem C07_locality_dot : forall pfx pre sw rw post S0 S1 styles,
   [mk_cmatch (pfx ++ join [46] (pre ++ sw ++ post)) (pfx ++ join [46] (pre ++ rw ++ post)) Dot 0 0].
 Proof. exact compound_locality_dot_words. Qed.
 
+Theorem C07_locality_screaming_snake : forall pfx pre sw rw post S0 S1 styles,
+  pfx_ok pfx ->
+  all_neutral gen_acronyms pre = true -> all_neutral gen_acronyms sw = true ->
+  all_neutral gen_acronyms post = true -> all_neutral gen_acronyms rw = true ->
+  sw <> [] -> rw <> [] -> pre ++ post <> [] ->
+  visible S0 = true -> visible S1 = true ->
+  no_occ sw (pre ++ removelast sw) -> no_occ sw post ->
+  existsb (style_eqb ScreamingSnake) styles = true ->
+  find_compound_variants (pfx ++ join [95] (map upper (pre ++ sw ++ post)))
+                         (to_style gen_acronyms sw S0) (to_style gen_acronyms rw S1) styles =
+  [mk_cmatch (pfx ++ join [95] (map upper (pre ++ sw ++ post)))
+             (pfx ++ join [95] (map upper (pre ++ rw ++ post))) ScreamingSnake 0 0].
+Proof. exact compound_locality_screaming_snake_words. Qed.
+
+Theorem C07_locality_screaming_train : forall pfx pre sw rw post S0 S1 styles,
+  pfx_ok pfx ->
+  all_neutral gen_acronyms pre = true -> all_neutral gen_acronyms sw = true ->
+  all_neutral gen_acronyms post = true -> all_neutral gen_acronyms rw = true ->
+  sw <> [] -> rw <> [] -> pre ++ post <> [] ->
+  visible S0 = true -> visible S1 = true ->
+  no_occ sw (pre ++ removelast sw) -> no_occ sw post ->
+  existsb (style_eqb ScreamingTrain) styles = true ->
+  find_compound_variants (pfx ++ join [45] (map upper (pre ++ sw ++ post)))
+                         (to_style gen_acronyms sw S0) (to_style gen_acronyms rw S1) styles =
+  [mk_cmatch (pfx ++ join [45] (map upper (pre ++ sw ++ post)))
+             (pfx ++ join [45] (map upper (pre ++ rw ++ post))) ScreamingTrain 0 0].
+Proof. exact compound_locality_screaming_train_words. Qed.
+
+(* PascalCase: for EVERY visible style S1 the replacement is typed in, the words before and after the span are
+   preserved; the span holds the replacement's words capitalised (upper-cased when S1 is an all-caps style) *)
+Theorem C07_locality_pascal : forall pfx pre sw rw post S0 S1 styles,
+  pfx_ok pfx ->
+  all_neutral gen_acronyms pre = true -> all_neutral gen_acronyms sw = true ->
+  all_neutral gen_acronyms post = true -> all_neutral gen_acronyms rw = true ->
+  sw <> [] -> rw <> [] -> pre ++ post <> [] ->
+  visible S0 = true -> visible S1 = true ->
+  no_occ sw (pre ++ removelast sw) -> no_occ sw post ->
+  existsb (style_eqb Pascal) styles = true ->
+  find_compound_variants (pfx ++ concat (map capw (pre ++ sw ++ post)))
+                         (to_style gen_acronyms sw S0) (to_style gen_acronyms rw S1) styles =
+  [mk_cmatch (pfx ++ concat (map capw (pre ++ sw ++ post)))
+             (pfx ++ concat (map capw pre ++ map (if all_caps S1 then upper else capw) rw ++ map capw post))
+             Pascal 0 0].
+Proof. exact compound_locality_pascal_words_gen. Qed.
+
+Theorem C07_pascal_caps_inside_span :
+  find_compound_variants (bs "GetUserNameNow") (bs "user_name") (bs "ACCOUNT_NUMBER") gen_all_styles =
+  [mk_cmatch (bs "GetUserNameNow") (bs "GetACCOUNTNUMBERNow") Pascal 0 0].
+Proof. exact compound_pascal_caps_leak. Qed.
+
 (* the clause "separators (including doubled ones) are preserved" does not hold: machine-checked witness,
    the same output as the Rust function (recorded finding doubled_separator_collapsed) *)
 Theorem C07_doubled_separator_refuted :
@@ -100,5 +153,9 @@ Print Assumptions C07_near_miss_in_compound.
 Print Assumptions C07_locality_snake.
 Print Assumptions C07_locality_kebab.
 Print Assumptions C07_locality_dot.
+Print Assumptions C07_locality_screaming_snake.
+Print Assumptions C07_locality_screaming_train.
+Print Assumptions C07_locality_pascal.
+Print Assumptions C07_pascal_caps_inside_span.
 Print Assumptions C07_doubled_separator_refuted.
 Print Assumptions C07_locality_instance.
